@@ -14,7 +14,7 @@ func init() {
 		Technique: "reset-completeness (field write sets) + structural invariant of the all-pairs relaxation (pivot loop outermost) + decision table of mesh FindPort against the extracted neighbour wiring",
 		Explanation: "Decides: (1) Connector.NewNetwork re-initialises every field that the topology-building methods append to or increment, so a connector reused for a second network starts from the state of a fresh one; " +
 			"(2) in the Floyd-Warshall routine the relaxation d[i][j] > d[i][k] + d[k][j] is nested with the pivot k as the outermost of its three loops (the algorithm's correctness condition), updates distance and next hop together from the [i][k] entry, and the routing tables are filled from table[switch][device].nextHop; " +
-			"(3) mesh FindPort, in every ordering of destination and own coordinates on the three axes, returns the port wired (in mesh.go) to the neighbour one step closer on an axis where they differ, and the local port iff all coordinates are equal. (router-stateless) no method of the route computer stores into the router, so nothing survives from one network to the next. (unique-names) as in C29.",
+			"(3) mesh FindPort, in every ordering of destination and own coordinates on the three axes, returns the port wired (in mesh.go) to the neighbour one step closer on an axis where they differ, and the local port iff all coordinates are equal. (router-stateless) no method of the route computer stores into the router, so nothing survives from one network to the next. (unique-names) as in C29. (wrapper-reset) every field of a connector wrapper (nvlink, pcie, mesh) that its Add*/PlugIn* methods grow is re-initialised by CreateNetwork.",
 		NotDecided:  "shortest-path optimality on arbitrary graphs as an arithmetic fact; the bandwidth-first router.",
 		Assumptions: []string{"mesh wiring functions name the neighbour by a coordinate minus one"},
 	}, runC30)
@@ -22,7 +22,7 @@ func init() {
 		Technique: "information-flow rules on the tracer state (dependence slices) + decision tables of the per-event updates",
 		Explanation: "Decides: (1) no tracer statistic is stored as the result of a division that also reads the same field (a running quotient truncates at every step; the average must be derived from an exact sum and a count when asked); the total- and average-time tracers add exactly end minus recorded start for tracked tasks and forget the task; " +
 			"(2) in the busy-time interval merge, the overlap test reads the interval being extended (the accumulated interval, not the seed task), repeats until nothing joins, and the 'oldest incomplete task' used to decide when intervals may be collapsed is found by scanning from the front of the start-ordered list; " +
-			"(3) the tag-count tracer counts every tag and counts a tracked task at most once per tag name.",
+			"(3) the tag-count tracer counts every tag and counts a tracked task at most once per tag name. (tracer-locked) every exported method of the four aggregate tracers that touches the tracer's own map or list holds the tracer's mutex.",
 		NotDecided:  "the numbers themselves on actual streams.",
 		Assumptions: []string{"task starts arrive in time order (the property's quantifier)"},
 	}, runC34)
@@ -42,6 +42,7 @@ func init() {
 }
 
 func runC30(c *Ctx) {
+	wrapperResetRule(c, "wrapper-reset", []string{"noc/networking/nvlink", "noc/networking/pcie", "noc/networking/mesh"})
 	uniqueNamesRule(c, "unique-names")
 	routerStatelessRule(c, "router-stateless")
 	// every port given to AddTile is registered with its tile and merged into it
@@ -428,6 +429,7 @@ func meshRule(c *Ctx) {
 }
 
 func runC34(c *Ctx) {
+	tracerLockedRule(c, "tracer-locked", 8)
 	p := c.P
 	// (1) no running quotient
 	for _, typ := range []string{"TotalTimeTracer", "AverageTimeTracer", "BusyTimeTracer", "TagCountTracer"} {
